@@ -413,7 +413,9 @@ pub fn record(rng: &mut SmallRng, n_events: usize, out: &mut dyn Write) {
             writeln!(out, "{}", json!({"ev": if k % 2 == 0 {"cmp"} else {"eq"}, "kind": "nested", "l": l, "r": r, "ret": ret})).unwrap();
         } else {
             // lengths around 8 / 16 / 32 / 64 elements one time in four (equal up to a late index)
-            let ml = [12, 12, 12, 12, 12, 12, 9, 17, 33, 40, 65, 80][rng.gen_range(0..12)];
+            // ... and, rarely, beyond 256 elements (an index or length kept in a u8 wraps there)
+            let ml = if rng.gen_range(0..40) == 0 { [255, 256, 257, 258, 300][rng.gen_range(0..5)] }
+                     else { [12, 12, 12, 12, 12, 12, 9, 17, 33, 40, 65, 80][rng.gen_range(0..12)] };
             let l = if ml > 12 { let mut v = gen_flat(rng, ml); while v.len() + 2 < ml { v.push(rng.gen_range(0..3)); } v } else { gen_flat(rng, ml) };
             let mut r = l.clone();
             match rng.gen_range(0..5) {
